@@ -27,7 +27,7 @@ def gen_cfg(rng, rows_meta: Dict, allow_tf=True, allow_fill=True, allow_ha=True,
 
 
 def gen_case(rng, ctx, kinds: List[str], allow_tf=True, allow_fill=True, allow_ha=True, regimes=None,
-             max_n_quick=50, max_n_thorough=160, inputs_base=("close", "close", "src", "high")) -> Dict:
+             max_n_quick=50, max_n_thorough=160, inputs_base=("close", "close", "src", "high", "dd.x")) -> Dict:
     kind = rng.choice(kinds)
     n = rng.choice([0, 1, 2, 3]) if rng.random() < 0.06 else rng.randint(4, max_n_thorough if ctx.thorough else max_n_quick)
     step = rng.choice([1, 5, 60, 60, 300, 3600, 86400])
@@ -38,6 +38,8 @@ def gen_case(rng, ctx, kinds: List[str], allow_tf=True, allow_fill=True, allow_h
         ts_mode = rng.choice(["regular", "gaps", "jitter"])
     base = not cfg.get("tf") and not cfg.get("ha")
     spec = X.gen_spec(rng, kind, ctx.thorough, inputs=inputs_base if base else ("close", "close", "high", "low"))
+    if rng.random() < 0.15:        # a user-chosen suffix; helper series are named after the full name
+        spec["name_suffix"] = rng.choice(["x", "b2", "2.5"])
     if not base and spec["kind"] == "COUNTER":
         spec["kw"]["input_value"] = rng.choice(["positive", "negative"])
     regime = rng.choice(regimes or gen.REGIMES)
